@@ -1,8 +1,27 @@
 (* Props/C14.v — Oracle key set changes only by super-majority vote of registered keys.  Statements only. *)
 From Coq Require Import ZArith Bool List.
-From Sge Require Import Lib.Dec Model.Types Model.Mint Model.Chain Proofs.OvmInv.
+From Sge Require Import Lib.Dec Model.Types Model.Mint Model.Chain Proofs.OvmInv Proofs.OvmHist.
 Import ListNotations.
 Open Scope Z_scope.
+
+(* over ALL histories from a genesis vault of 4 to 5 distinct valid keys: the vault always holds 4 to 5 distinct valid keys (so ticket
+   verification always has a leader), every proposal carries 4 to 5 distinct valid keys with its leader index in range, each key
+   has voted at most once on each proposal, and every vote is yes or no *)
+Theorem C14_vault_wellformed : forall bk supply P vault MP t0 sw sd ops,
+  key_list_ok vault ->
+  let s := run (init bk supply P vault MP t0 sw sd) ops in
+  4 <= zlen (c_vault s) <= 5 /\ NoDup (c_vault s) /\ Forall (fun k => 0 <= k) (c_vault s) /\ 0 <= leader s /\
+  (forall p, In p (c_props s) -> key_list_ok (pp_keys p) /\ 0 <= pp_leader p < zlen (pp_keys p) /\ NoDup (map fst (pp_votes p)) /\
+                                 Forall (fun v => snd v = VOTE_YES \/ snd v = VOTE_NO) (pp_votes p)).
+Proof. exact vault_over_histories. Qed.
+Print Assumptions C14_vault_wellformed.
+
+(* when EndBlock changes the vault, the key set is the approved proposal's with the proposed leader first *)
+Theorem C14_leader_first : forall s, ovminv s -> c_halted s = false -> c_vault (fst (step s OEnd)) <> c_vault s ->
+  exists p, In p (c_props s) /\ c_vault (fst (step s OEnd)) = set_leader (pp_keys p) (pp_leader p) /\
+            leader (fst (step s OEnd)) = nth (Z.to_nat (pp_leader p)) (pp_keys p) (-1).
+Proof. exact vault_change_leader. Qed.
+Print Assumptions C14_leader_first.
 
 (* the vault changes in no operation other than EndBlock *)
 Theorem C14_only_in_endblock : forall s o, o <> OEnd -> c_vault (fst (step s o)) = c_vault s.
